@@ -270,6 +270,42 @@ fn push_escaped_char(s: &mut String, c: char) {
     }
 }
 
+type Parsed = (
+    Result<crate::parse::AstFacts, String>,
+    Result<regex_syntax::hir::Hir, String>,
+    Result<Regex, String>,
+    Result<Regex, String>,
+);
+
+/// Parsing and compiling a pattern is by far the most expensive step of a sweep; identical
+/// outputs (e.g. `^\w$` for a million code points) are parsed once per thread.
+fn parse_cached(p: &str) -> std::rc::Rc<Parsed> {
+    use std::cell::RefCell;
+    use std::rc::Rc;
+    thread_local! {
+        static CACHE: RefCell<HashMap<String, Rc<Parsed>>> = RefCell::new(HashMap::new());
+    }
+    CACHE.with(|c| {
+        let mut c = c.borrow_mut();
+        if let Some(v) = c.get(p) {
+            return v.clone();
+        }
+        let v = Rc::new((
+            ast_facts(p),
+            parse_hir(p),
+            Regex::new(p).map_err(|e| e.to_string()),
+            Regex::new(&format!("^(?:{})$", p)).map_err(|e| e.to_string()),
+        ));
+        if c.len() > 20000 {
+            c.clear();
+        }
+        if p.len() < 64 {
+            c.insert(p.to_string(), v.clone());
+        }
+        v
+    })
+}
+
 pub struct RunOpts {
     /// include the output as a code point sequence (C15)
     pub cps: bool,
@@ -521,7 +557,8 @@ pub fn emit_group(spec: &GroupSpec) -> GroupOut {
                 out.insert("engine".into(), json!(for_engine.is_some()));
                 let mut obs = Map::new();
                 if let Some(p) = &for_engine {
-                    match (ast_facts(p), parse_hir(p), Regex::new(p)) {
+                    let parsed = parse_cached(p);
+                    match (&parsed.0, &parsed.1, &parsed.2) {
                         (Ok(f), Ok(h), Ok(re)) => {
                             out.insert("compiles".into(), json!(true));
                             out.insert("flags".into(), json!(f.flags));
@@ -552,7 +589,7 @@ pub fn emit_group(spec: &GroupSpec) -> GroupOut {
                                 }
                             }
                             // engine observations
-                            let anchored = Regex::new(&format!("^(?:{})$", p));
+                            let anchored = &parsed.3;
                             let mut full = vec![];
                             let mut find = vec![];
                             for t in &spec.tcs {
@@ -574,9 +611,11 @@ pub fn emit_group(spec: &GroupSpec) -> GroupOut {
                         (a, h, re) => {
                             out.insert("compiles".into(), json!(false));
                             let msg = a
+                                .as_ref()
                                 .err()
-                                .or(h.err())
-                                .or(re.err().map(|e| e.to_string()))
+                                .cloned()
+                                .or(h.as_ref().err().cloned())
+                                .or(re.as_ref().err().cloned())
                                 .unwrap_or_default();
                             out.insert("msg".into(), json!(ascii_only(&msg)));
                         }
@@ -602,7 +641,7 @@ pub fn emit_group(spec: &GroupSpec) -> GroupOut {
     if let Err(e) = atoms.self_check(&table) {
         notes.push(format!("PROJECTION-SELF-CHECK-FAILED: {}", e));
     }
-    let natoms = atoms.atoms.len();
+    let natoms = atoms.len();
     let mut lines = vec![];
     for mut e in events {
         replace_sets(&mut e, &atoms);
